@@ -32,6 +32,8 @@ type mergedAnchors struct {
 	initF     *ssa.Function
 	seekRec   *ssa.Function // (*Merged).seekRecord
 	newMerged *ssa.Function
+	// iterator methods through which init/advance reach the heap's add
+	fillHelpers []string
 }
 
 func resolveMergedAnchors(p *Program) *mergedAnchors {
@@ -180,12 +182,21 @@ func resolveMergedAnchors(p *Program) *mergedAnchors {
 			continue
 		}
 		dc := directCallees(f)
+		// a method fills the heap if it calls the heap's add itself or through a
+		// helper method of the iterator (e.g. a shared "pull one record" helper)
+		fills := dc[funcKey(a.hAdd)]
+		for k := range dc {
+			if g := p.Func(k); g != nil && g != f && recvIs(g, a.iterT) && directCallees(g)[funcKey(a.hAdd)] {
+				fills = true
+				a.fillHelpers = append(a.fillHelpers, funcKey(g))
+			}
+		}
 		switch {
 		case dc[funcKey(a.hRemove)]:
 			a.producer = f
-		case dc[funcKey(a.hAdd)] && f.Signature.Params().Len() == 1:
+		case fills && f.Signature.Params().Len() == 1:
 			a.advance = f
-		case dc[funcKey(a.hAdd)] && f.Signature.Params().Len() == 0:
+		case fills && f.Signature.Params().Len() == 0:
 			a.initF = f
 		case f.Name() == "Next":
 			a.next = f
@@ -461,7 +472,11 @@ func checkMergedView(p *Program, r *Report) {
 		nextName := "method:(iterator).Next"
 		fk := funcKey(fn)
 		var moved []string
-		cfg := &simCfg{Event: map[string]bool{add: true, nextName: true}, Opaque: map[string]bool{"newRecord": true}, NoInlineDefault: true,
+		inl := map[string]bool{}
+		for _, h := range a.fillHelpers {
+			inl[h] = true
+		}
+		cfg := &simCfg{Event: map[string]bool{add: true, nextName: true}, Opaque: map[string]bool{"newRecord": true}, NoInlineDefault: true, Inline: inl,
 			OnStoreHook: func(c *simClient, x *Exec, st *State, fr *Frame, pos token.Pos, addr, val, old *Term) {
 				if (addr.Op == "index" && strings.Contains(addr.Args[0].key, a.iterT.Obj().Name()+".") && !val.isNilConst()) ||
 					(addr.Op == "field" && strings.HasPrefix(addr.Aux, a.iterT.Obj().Name()+".") && val.Op != "const" && isSliceTyped(a.iterT, addr.Aux)) {
